@@ -7,6 +7,7 @@ package witness
 import (
 	"sync"
 	"testing"
+	"time"
 
 	"github.com/mlange-42/ark/ecs"
 )
@@ -765,5 +766,65 @@ func TestWitness_C15_ShrinkInsideQuery(t *testing.T) {
 	q.Close()
 	if mapR.Get(kids[4]).V != 4 {
 		t.Fatal("value changed by Shrink")
+	}
+}
+
+// C07: up to 64 queries may be open at once; the 65th is rejected. After recovering from that panic
+// the open queries can still be closed and the world unlocks when the last one is closed. Before the
+// repair lock.LockSafe panicked inside bitPool.Get while holding its mutex, so every later Close (and
+// every later Query) blocked for ever: the world could never be unlocked again.
+func TestWitness_C07_SixtyFifthQueryDoesNotDeadlock(t *testing.T) {
+	w := ecs.NewWorld(4)
+	mapA := ecs.NewMap1[compA](w)
+	mapA.NewEntity(&compA{1})
+	f := ecs.NewFilter1[compA](w)
+	qs := make([]ecs.Query1[compA], 0, 64)
+	for i := 0; i < 64; i++ {
+		qs = append(qs, f.Query())
+	}
+	mustPanic(t, "the 65th simultaneous query", func() { f.Query() })
+	if !w.IsLocked() {
+		t.Fatal("world not locked with 64 open queries")
+	}
+	done := make(chan string, 1)
+	go func() {
+		defer func() {
+			if r := recover(); r != nil {
+				done <- "Close panicked"
+				return
+			}
+			done <- ""
+		}()
+		for i := range qs {
+			qs[i].Close()
+		}
+	}()
+	select {
+	case msg := <-done:
+		if msg != "" {
+			t.Fatal(msg)
+		}
+	case <-time.After(10 * time.Second):
+		t.Fatal("closing the open queries after the rejected 65th blocks for ever (mutex left locked)")
+	}
+	if w.IsLocked() {
+		t.Fatal("world still locked after closing all 64 queries")
+	}
+	mustNotPanic(t, "structural operation after unlocking", func() { mapA.NewEntity(&compA{2}) })
+	q := f.Query()
+	if q.Count() != 2 {
+		t.Fatalf("Count = %d, want 2", q.Count())
+	}
+	q.Close()
+	// all 64 bits are usable again
+	qs = qs[:0]
+	for i := 0; i < 64; i++ {
+		qs = append(qs, f.Query())
+	}
+	for i := range qs {
+		qs[i].Close()
+	}
+	if w.IsLocked() {
+		t.Fatal("world locked after the second round")
 	}
 }
